@@ -20,6 +20,8 @@ THIS_ROUTES = [
     'h := a.f\na = {"name": "A3"}\nprint(h())',
     '[h] := [b.f]\nprint(h())', '{f} := a\nprint(f())', 'for [k, fx] in [a.f, b.g] {\n    print(fx())\n}',
     'xs := [a.f]\nys := xs + []\nprint(ys[0]())', 'print((a.f)())', 'a.f2 = b.f\nprint(a.f2())',
+    'h := null\nh = a.f\nprint(h())', 'h := who\nif true {\n    h = b.g\n}\nprint(h())', 'f1 := null\nf2 := null\n[f1, f2] = [b.f, a.f]\nprint(f1())\nprint(f2())', 'h := null\nfor [i, o2] in [a, b] {\n    h = o2.f\n}\nprint(h())',
+    'h := a.f\nh = who\nprint(h())', 'q := {"name": "Q", "m": fn () {\n    h := null\n    h = a.f\n    return h()\n}}\nprint(q.m())',
     'o := {"name": "O", "set": fn (v) {\n    this.name = v\n    return this\n}}\nprint(o.set("N") === o)\nprint(o.name)',
 ]
 
